@@ -349,6 +349,7 @@ def data_fn_np(dspec, coords):
 #   factor = ["out"|"coord"|"data"|"par"|"dflt"|"fs", base, j, side]
 #          | ["d1"|"d2", out_base, j, out_side, var_base, i, var_side]
 #          | ["sin", factor] | ["imean", [factor, ...]]
+#          | ["ddata", data_base, j, var_base, i] derivative of component j of a data function w.r.t. coordinate i of var
 #          | ["dint", out_base, j, var_base, i]   mean over the integral points of d out_j / d var_i, where var is a
 #                                                 NON-integrated coordinate: grad(out_integral, var) / n_integral
 # ---------------------------------------------------------------------------------------------
@@ -367,6 +368,9 @@ def factor_args(fac, acc):
             factor_args(f, acc)
     elif k == "dint":
         acc.add(("out", fac[1], "integral"))
+        acc.add(("coord", fac[3], ""))
+    elif k == "ddata":
+        acc.add(("data", fac[1], ""))
         acc.add(("coord", fac[3], ""))
     return acc
 
@@ -394,6 +398,13 @@ def _t_factor(fac, kw):
         if g2 is None:
             return torch.zeros_like(g[..., :1])
         return g2[..., fac[5]:fac[5] + 1]
+    if k == "ddata":
+        dv = kw[argname(fac[1], "")]
+        x = kw[argname(fac[3], "")]
+        g = torch.autograd.grad(dv[..., fac[2]].sum(), x, create_graph=True, allow_unused=True)[0] if dv.requires_grad else None
+        if g is None:           # the library's own operators return zeros for an unconnected input
+            g = torch.zeros_like(x)
+        return g[..., fac[4]:fac[4] + 1]
     if k == "dint":
         u = kw[argname(fac[1], "integral")]
         x = kw[argname(fac[3], "")]
@@ -438,6 +449,7 @@ class Resolver:
         self.params = params             # name -> array (1, dim)
         self.defaults = defaults
         self.fs = fs or {}
+        self.dspecs = {}                 # name -> data function spec (for derivatives of data functions)
 
     def value(self, fac, mag=False):
         k = fac[0]
@@ -466,6 +478,21 @@ class Resolver:
                 t = self.value(f, mag)
                 p = t if p is None else p * t
             v = np.mean(p, axis=1, keepdims=True)
+        elif k == "ddata":
+            # central difference of the float64 data function on the recorded rows
+            dspec = self.dspecs[fac[1]]
+            cs = {kk: np.asarray(a, dtype=np.float64) for kk, a in self.c[""].items()}
+            h = 1e-5
+            vals = []
+            for sgn in (1.0, -1.0):
+                c2 = dict(cs)
+                a2 = cs[fac[3]].copy()
+                a2[..., fac[4]] += sgn * h
+                c2[fac[3]] = a2
+                vals.append(data_fn_np(dspec, c2)[..., fac[2]:fac[2] + 1])
+            v = (vals[0] - vals[1]) / (2 * h)
+            if mag:
+                v = np.abs(v) + 1.0
         elif k == "dint":
             # pointwise derivative on the fully broadcast (n, n_integral) point set, then the mean over the integral axis
             cs = {kk: np.asarray(a, dtype=np.float64) for kk, a in self.c["integral"].items()}
